@@ -63,8 +63,10 @@ partial def step (st : St) (line : String) : St × String :=
   match ws with
   | "lookup" :: _ =>
     let n := (C09.kvOf ws "n").toNat!
+    let gs := max 1 ((C09.kvOf ws "gs").toNat?.getD 1)
     let cfg : Cfg Nat := { K := (C09.kvOf ws "K").toNat!, α := (C09.kvOf ws "a").toNat!, β := (C09.kvOf ws "b").toNat!,
-                           self := n, lt := fun a b => a < b }
+                           self := n, lt := fun a b => a < b,
+                           divLimit := (C09.kvOf ws "div").toNat?.getD 0, group := fun r => r / gs }
     let undial := ((C09.kvOf ws "peers").splitOn "|").filterMap fun t =>
       match t.splitOn ":" with
       | id :: "d" :: _ => some id.toNat!
